@@ -60,8 +60,8 @@ type AbsfsNFS struct {
 	rateLimiterMu    sync.RWMutex            // Guards rateLimiter: policy updates replace it at runtime
 	exportServer     *Server                 // Server created by Export(), nil if not exported
 
-	exclusiveMu      sync.Mutex                 // Guards exclusiveCreates
-	exclusiveCreates map[string]exclusiveCreate // Verifier of the EXCLUSIVE CREATE that made each path
+	exclusiveMu      sync.Mutex          // Guards exclusiveCreates
+	exclusiveCreates map[string][8]byte // Verifier of the EXCLUSIVE CREATE that made each path
 
 	// Options are stored as immutable snapshots behind atomic pointers.
 	// Readers load the pointer -- no lock needed.
